@@ -833,6 +833,27 @@ def c17(ctx):
                 for comp in ("iter", "unfolder"):
                     cases.append(case("C17", "goreuse", "go", sub=dict(component=comp, history=[a], T=b["T"], V=b["V"]), origin="%s history (same base type)" % comp))
                     npairs += 1
+                if npairs % 3 == 0:      # ... the documents arriving through a codec (names by reference), key cache on
+                    cases.append(case("C17", "goreuse", "go", sub=dict(component="unfolder", history=[a], T=b["T"], V=b["V"], via=("json", "ubjson", "cborl")[npairs % 9 // 3],
+                                                                        keycache=1 + npairs % 2), origin="unfolder history via codec, key cache"))
+    # member names recurring across the documents one unfolder sees, with the key cache smaller than / as large as the name set
+    def I(x):
+        return dict(k="int", ty="int", v=streams.canon(x))
+    MT = dict(k="map", e=[dict(k="int")])
+    IT = dict(k="iface")
+
+    def mv(names, generic):
+        m = dict(k="map", m=[dict(key=list(nm), val=(dict(k="iface", dyn=[dict(k="int")], e=[I(j)]) if generic else I(j))) for j, nm in enumerate(names)])
+        return dict(k="iface", dyn=[dict(k="map", e=[dict(k="iface")])], e=[m]) if generic else m
+    N = [b"a", b"b", b"c", b"d", "\u00e9".encode(), b"k" * 20]
+    hists = [([N[:2], N[2:3]], N[:3]), ([N[:3]], N[:3]), ([N[:1], N[1:2], N[2:3], N[3:4]], N[:4]), ([N[:2], N[:2]], N[1:3]), ([N[3:6]], N[2:6]), ([N[:4], N[2:6]], N)]
+    for hs, pr in hists:
+        for generic in (False, True):
+            T = IT if generic else MT
+            for cap in (0, 1, 2, 3, 5):
+                for via in ("json", "ubjson", "cborl", ""):
+                    cases.append(case("C17", "goreuse", "go", sub=dict(component="unfolder", history=[dict(T=T, V=mv(h, generic)) for h in hs], T=T, V=mv(pr, generic),
+                                                                        via=via, keycache=cap), origin="recurring member names, key cache %d" % cap))
     number(cases)
     tf, st = core.run_harness(ctx, cases)
     failed, nv = core.tlc_validate(ctx, "TraceCodec", tf)
@@ -840,7 +861,8 @@ def c17(ctx):
         ctx, "TraceCodec", cases, tf, failed, nv, level_note="",
         rule="(iterator, unfolder) histories of 1-2 TLC-enumerated Go programs followed by a probe program on one Iterator / one Unfolder "
              "versus a new one (pairs over a seeded alphabet of programs that share types, so a type is met first as a plain value and "
-             "later inlined/omitted and vice versa); (codecs) ALL histories of up to %d documents over an alphabet of %d shapes per component (chosen with pairwise different signatures "
+             "later inlined/omitted and vice versa; every third pair also through a codec with the unfolder's key cache on, plus histories "
+             "of maps whose member names recur beyond the cache capacity 0-5); (codecs) ALL histories of up to %d documents over an alphabet of %d shapes per component (chosen with pairwise different signatures "
              "from the TLC generators: scalars, strings, empty/nested containers, known/unknown lengths, typed containers, every family "
              "of extended events) followed by every probe from the same alphabet (quick: half of the longest histories, seeded), for the "
              "3 encoders, the 3 parsers (Parse per document and Write+end) and the 3 pull decoders (byte slice and scripted reader); "
